@@ -159,6 +159,8 @@ const FILE_TIME_LIMIT_S: u64 = 40;
 // binary does).  If one file is not finished within FILE_TIME_LIMIT_S seconds the analysis is taken not to
 // terminate on it: its result file says `hang <detector>`, the stuck thread is abandoned and a new worker goes on
 // with the next file (C04: a hang is an abort the user sees).
+static DUMP_ONLY: std::sync::atomic::AtomicBool = std::sync::atomic::AtomicBool::new(false);
+
 fn cmd_prog(dir: &str, want_walk: bool, want_dump: bool) {
     use std::sync::atomic::Ordering::SeqCst;
     let mut files: Vec<_> = std::fs::read_dir(dir)
@@ -234,6 +236,13 @@ fn prog_files(files: &[std::path::PathBuf], want_walk: bool, want_dump: bool) {
                 if let Ok(mut g) = PARTIAL.lock() {
                     *g = out.clone();
                 }
+                if DUMP_ONLY.load(SeqCst) {
+                    let mut p = f.clone();
+                    p.set_extension("res");
+                    std::fs::write(p, out).unwrap();
+                    DONE.fetch_add(1, SeqCst);
+                    continue;
+                }
                 for (i, (name, f)) in dets.iter().enumerate() {
                     CUR_DET.store(i, SeqCst);
                     let su2 = su.clone();
@@ -266,11 +275,17 @@ fn prog_files(files: &[std::path::PathBuf], want_walk: bool, want_dump: bool) {
                         }
                         s.push('\n');
                         // sub-roots: size of the full walk from every node found
-                        s.push_str("walk sub");
-                        for n in &nodes {
-                            s.push_str(&format!(" {}", ast::walk_node_for_targets(&full, n.clone()).len()));
+                        // the full walk from EVERY node as root is quadratic in the depth: it is left out for very large trees
+                        // (the checks then compare the other entry points only)
+                        if nodes.len() <= 1500 {
+                            s.push_str("walk sub");
+                            for n in &nodes {
+                                s.push_str(&format!(" {}", ast::walk_node_for_targets(&full, n.clone()).len()));
+                            }
+                            s.push('\n');
+                        } else {
+                            s.push_str("walk subskipped\n");
                         }
-                        s.push('\n');
                         for k in 0..4usize {
                             let sub: Vec<Target> = targets
                                 .iter()
@@ -373,6 +388,8 @@ fn main() {
     match args.get(1).map(|s| s.as_str()) {
         Some("prog") => {
             let flags: Vec<&str> = args[3..].iter().map(|s| s.as_str()).collect();
+            // dumponly: parse and print the tree, run nothing of solstat (used for a file on which the analysis kills the process)
+            DUMP_ONLY.store(flags.contains(&"dumponly"), std::sync::atomic::Ordering::SeqCst);
             cmd_prog(&args[2], flags.contains(&"walk"), !flags.contains(&"nodump"));
             std::process::exit(0); // abandoned (non-terminating) worker threads die with the process
         }
